@@ -83,8 +83,12 @@ func isConnectionSpecific(k []byte) bool {
 }
 
 func ToLower(b []byte) []byte {
-	for i := range b {
-		b[i] |= 32
+	// Only letters have a lower case. Setting the bit on every octet turned
+	// '_' into DEL and '^' into '~' in the names of the fields we send.
+	for i, c := range b {
+		if c >= 'A' && c <= 'Z' {
+			b[i] = c | 32
+		}
 	}
 
 	return b
